@@ -51,6 +51,9 @@ class Stream(ModelMixin["Stream"], Base):
     marlin_la_url: Mapped[str | None] = mapped_column(sa.String(), nullable=True)
     playready_la_url: Mapped[str | None] = mapped_column(sa.String(), nullable=True)
     media_files: Mapped[list[MediaFile]] = relationship('MediaFile', cascade="all, delete")
+    # the periods of multi-period streams that play this stream
+    periods: Mapped[list["Period"]] = relationship(  # noqa: F821
+        'Period', back_populates='stream', cascade="all, delete")
     timing_ref: Mapped[JsonObject | None] = mapped_column(
         'timing_reference',
         sqlalchemy_jsonfield.JSONField(
@@ -177,6 +180,10 @@ class Stream(ModelMixin["Stream"], Base):
         logging.debug('destination file "%s"', abs_filename)
         mf = MediaFile.get(name=filename.stem)
         if mf:
+            if mf.stream_pk != self.pk:
+                # file names are unique across streams: the upload takes
+                # the file away from the other stream
+                mf.clear_timing_reference()
             mf.delete_file()
             mf.delete()
         blob = Blob.get_one(filename=filename.name)
